@@ -39,7 +39,9 @@ Record obs := {
   o_status : N;                      (* 0 running, 1 SyncLoop returned with an error, 2 NewManager failed *)
   o_state : option (N * Z * root);   (* store.GetState: LastBlockHeight, LastBlockTime, AppHash *)
   o_last : N * Z * root;             (* Manager.GetLastState *)
-  o_calls : N                        (* ExecuteTxs calls of completed steps so far *)
+  o_calls : N;                       (* ExecuteTxs calls of completed steps so far *)
+  o_da : option N * N * N            (* State.DAHeight: in the store, in Manager.lastState, and the DA scan
+                                        position Manager.daHeight the process started with / is at *)
 }.
 
 Inductive wshape := WS | WB (n : N) | WT (n : N) | WOther.
@@ -102,7 +104,14 @@ Definition obs_agrees (nd : node) (o : obs) : bool :=
   | None, None => true
   | _, _ => false
   end &&
-  t3_eqb (st3 (n_last nd)) (o_last o) && (N.of_nat (length (n_log nd)) =? o_calls o).
+  t3_eqb (st3 (n_last nd)) (o_last o) && (N.of_nat (length (n_log nd)) =? o_calls o) &&
+  (* the persisted DA cursor: next_state copies s_da, nothing in SyncLoop/trySyncNextBlock writes it, and
+     NewManager starts the scan from the stored value (config DA.StartHeight = 0 in the harness) *)
+  match d_state (n_disk nd), fst (fst (o_da o)) with
+  | Some s, Some x => s_da s =? x
+  | None, None => true
+  | _, _ => false
+  end && (s_da (n_last nd) =? snd (fst (o_da o))) && (s_da (n_last nd) =? snd (o_da o)).
 
 Fixpoint list_eqb {A B} (e : A -> B -> bool) (a : list A) (b : list B) : bool :=
   match a, b with
